@@ -64,7 +64,10 @@ def parse_line(l):
 
 def corpus_programs(ctx):
     cdir = os.path.join(C.VERIF, "corpus", "C10")
-    progs = sorted(f[:-5] for f in os.listdir(cdir) if f.endswith(".hawk") and f != "inc.hawk")
+    # families: p* one subsystem each; r* replace an already populated resource (assign FS/RS/OFS/... again, rebuild
+    # containers, reopen streams) and keep using it; e* the unconstrained run ends in a non-memory error
+    progs = sorted((f[:-5] for f in os.listdir(cdir) if f.endswith(".hawk") and f != "inc.hawk"),
+                   key=lambda n: ("pre".find(n[0]) if n[0] in "pre" else 9, n))
     return cdir, progs
 
 
@@ -79,6 +82,21 @@ def make_workdir(ctx, cdir, name, text=None):
     for f in ("data.txt", "inc.hawk"):
         shutil.copy(os.path.join(cdir, f), os.path.join(wd, f))
     return wd
+
+
+def ref_clean(ref, prog_text):
+    """the unconstrained run: no crash, nothing left allocated, nothing foreign freed; it succeeds, or - only for a
+    program that announces it with a first line `# expect: error` - fails with a non-memory error"""
+    if ref is None or ref.get("live") != 0 or ref.get("badfree") != 0 or ref.get("hit") != 0:
+        return False
+    oc = ref.get("outcome", "?")
+    if oc == "NOHIT":
+        return True
+    return oc.startswith("ERR") and ref.get("errnum") != ENOMEM and prog_text.startswith("# expect: error")
+
+
+def ref_err(ref):
+    return (ref.get("phase"), ref.get("errnum")) if ref.get("outcome", "").startswith("ERR") else None
 
 
 def run_ref(exe, wd):
@@ -197,6 +215,8 @@ def judge(d):
     if oc == "OK_DIFF" or oc == "NOHIT_DIFF":
         return ("diff", None, "every call succeeded but the output differs from the unconstrained run")
     if oc.startswith("ERR"):
+        if d.get("_referr") is not None and d["_referr"] == (d.get("phase"), d.get("errnum")):
+            return None   # the unconstrained run of this program ends in exactly this (non-memory) error: same result
         sig = None
         if d.get("errnum") == EOPEN and d.get("msg", "").startswith("unable_to_open_") and d.get("msg", "").endswith("insufficient_memory"):
             sig = SIG_EOPEN
@@ -308,7 +328,8 @@ def gc_retry_correspondence(lines, problems_corr, name):
         # the value block (gc_calloc_val) or the container's own table (hawk_map_init/hawk_arr_init) of makemapval/makearrval
         if s and (s[0] == "gc_calloc_val" or any(x in ("hawk_rtx_makemapval", "hawk_rtx_makearrval") for x in s[:3])) and d.get("mode") == "one":
             n += 1
-            if d.get("outcome") not in ("OK_SAME",) and not d.get("outcome", "").startswith(("ASAN", "UBSAN", "SIG", "TIMEOUT")) and d.get("live", 0) == 0:
+            same_as_ref = d.get("outcome") == "OK_SAME" or (d.get("_referr") is not None and d["_referr"] == (d.get("phase"), d.get("errnum")))
+            if not same_as_ref and not d.get("outcome", "").startswith(("ASAN", "UBSAN", "SIG", "TIMEOUT")) and d.get("live", 0) == 0:
                 problems_corr.append("%s k=%d: a single refused request in %s was not absorbed by collect-and-retry (outcome %s); "
                                      "gc_calloc_retry/gc_calloc_single_refusal describe the model only" % (name, d["k"], s[0], d.get("outcome")))
                 break
@@ -501,8 +522,8 @@ def run(ctx):
     for name in progs:
         wds[name] = make_workdir(ctx, cdir, name)
         ref, msg = run_ref(exe, wds[name])
-        if ref is None or ref.get("outcome") != "NOHIT" or ref.get("live") != 0:
-            ctx.problem("impl", "unconstrained run of %s is not clean: %s" % (name, msg or ref["raw"]),
+        if not ref_clean(ref, open(os.path.join(cdir, name + ".hawk")).read()):
+            ctx.problem("impl", "unconstrained run of %s is not clean (memory error, leak, foreign free or unexpected failure): %s" % (name, msg or ref["raw"]),
                         replay_text("lifecycle", name, "none", -1, cdir, open(os.path.join(cdir, name + ".hawk")).read()), found_input=True)
             continue
         refs[name] = ref
@@ -514,6 +535,10 @@ def run(ctx):
         for mode in ("one", "from"):
             # the programs whose rtx_open phase is compared with the table model get every k of that phase
             dense = (refs[name]["reqs"][2], refs[name]["reqs"][3]) if i < 4 else ()
+            if name[0] in "re":
+                # multi-step programs: a defect shows only for the few request indices inside the second (replacing)
+                # step, so every index of the execution phase is injected in both modes, also in the quick tier
+                dense = (refs[name]["reqs"][2], total + 1)
             jobs.append((wds[name], mode, choose_ks(ctx, total, mode, i == 0, open_total, dense)))
     t0 = time.time()
     res = run_sweeps(exe, jobs)
@@ -526,6 +551,7 @@ def run(ctx):
         for d in lines:
             evaluations += 1
             d["mode"] = mode
+            d["_referr"] = ref_err(refs[name])
             oc = d.get("outcome", "?")
             key = "%s/%s" % (d.get("failphase", d.get("phase", "?")), oc.split(":")[0])
             dist[key] = dist.get(key, 0) + 1
@@ -549,6 +575,7 @@ def run(ctx):
             name = os.path.basename(wd)[3:]
             for d in lines:
                 evaluations += 1
+                d["_referr"] = ref_err(refs[name])
                 v = judge(d)
                 if v and v[0].split(":")[0] in ("crash", "leak", "badfree"):
                     g = ("tolerant:" + v[0], d.get("failphase", "?"), "<".join(d.get("site", "?").split("<")[:5]), v[1])
@@ -586,6 +613,8 @@ def run(ctx):
         tol = g[0].startswith("tolerant:")
         again, _, _ = sweep_job((exe, wds[name], mode, [d["k"]], "confirm", dict(C.ASAN_ENV, OOMH_TOLERANT="1") if tol else None))
         symbolize(exe, again)
+        for a in again:
+            a["_referr"] = ref_err(refs[name])
         if again and judge(again[0]) is None:
             continue
         what = "%s, %s mode, request %d refused (allocation site %s, phase %s): %s [%d case(s) of this kind]" % (
@@ -605,7 +634,7 @@ def run(ctx):
         shutil.rmtree(wds[p], ignore_errors=True)
     return C.finish(ctx, [proof], evaluations, len(sites),
                     "cases = (program, request index k, mode) for %d corpus programs x {fail exactly the k-th request, fail every request from the k-th on} over open/parse/rtx_open/exec/close "
-                    "(quick: k<200 + every 2nd (`one`) / every 8th (`from`) at a seeded offset + the last 8; thorough: every k), + constructor probes (hawk_init, hawk_open, hawk_openstdwithmmgr, every k, both modes) "
+                    "(quick: k<200 + every 2nd (`one`) / every 8th (`from`) at a seeded offset + the last 8, and every k of the rtx_open+exec phases of the r*/e* program families; thorough: every k), + constructor probes (hawk_init, hawk_open, hawk_openstdwithmmgr, every k, both modes) "
                     "+ ecs op streams (exhaustive pairs + random, scripted allocator) + `hawk -m N` sweep (geometric 1 KiB..2 MiB + every size around the smallest working one); "
                     "each case judged on the real code: ENOMEM or identical output, no sanitizer report/signal/hang, zero live blocks, no foreign free; "
                     "distinct_nontrivial = distinct allocation call chains (innermost 5 hawk frames) at which a refusal was actually injected" % len(order),
@@ -638,12 +667,13 @@ def replay(ctx, path):
         ref, msg = run_ref(exe, wd)
         print("reference:", ref["raw"] if ref else msg)
         if hdr.get("mode") == "none":
-            return 1 if (ref is None or ref.get("live") != 0 or ref.get("outcome") != "NOHIT") else 0
+            return 0 if ref_clean(ref, text) else 1
         lines, rc, err = sweep_job((exe, wd, hdr["mode"], [int(hdr["k"])], "r", dict(C.ASAN_ENV, OOMH_TOLERANT="1") if hdr.get("tolerant") == "1" else None))
         symbolize(exe, lines)
         for d in lines:
             print(d["raw"])
             print("allocation site:", d.get("site"))
+            d["_referr"] = ref_err(ref) if ref else None
             v = judge(d)
             if v and hdr.get("tolerant") == "1" and v[0].split(":")[0] not in ("crash", "leak", "badfree"):
                 v = None
